@@ -190,6 +190,16 @@ pub fn generate(shard: usize, src: &mut Src) -> TotalCase {
             let e = gen_env(mt, src);
             let mut e2 = e.clone();
             e2.near_miss = String::new();
+            // two times in three a fully generated body (optional fields, repetitions) instead of the minimal one
+            if src.chance(2, 3) {
+                let m = gen_valid_msg(mt, src);
+                e2.body = m
+                    .fields
+                    .iter()
+                    .map(|f| format!(":{}:{}\n", f.tag, f.content))
+                    .collect::<String>();
+                e2.marker = String::new();
+            }
             let j = match (msg_ops(mt).parse_full)(&e2.text()) {
                 Ok(m) => m.json,
                 Err(_) => json!({"message_type": mt}),
@@ -247,7 +257,52 @@ pub fn damage_json(v: &mut Value, src: &mut Src) -> String {
         return "noop".into();
     }
     let p = ps[src.below(ps.len())].clone();
-    let (name, newv): (&str, Value) = match src.below(10) {
+    // a string of the same byte length with a two-byte character at some offset: passes length checks
+    // that count bytes and then meets slicing by byte offsets
+    let same_len: Option<Value> = at(v, &p).and_then(|x| x.as_str().map(|t| t.to_string())).and_then(|t| {
+        let n = t.len();
+        if n < 2 || !t.is_ascii() {
+            return None;
+        }
+        let off = src.below(n - 1);
+        let mut out = String::new();
+        out.push_str(&t[..off]);
+        out.push('é');
+        out.push_str(&t[off + 2..]);
+        Some(json!(out))
+    });
+    // structural damage: a whole optional member (an object or an array, e.g. the first of two sibling
+    // fields or a complete sequence occurrence) set to null, the rest untouched
+    let containers: Vec<Vec<String>> = ps
+        .iter()
+        .filter(|q| {
+            let mut cur: &Value = v;
+            for k in q.iter() {
+                cur = match cur {
+                    Value::Object(o) => match o.get(k) {
+                        Some(x) => x,
+                        None => return false,
+                    },
+                    Value::Array(a) => match k.parse::<usize>().ok().and_then(|i| a.get(i)) {
+                        Some(x) => x,
+                        None => return false,
+                    },
+                    _ => return false,
+                };
+            }
+            cur.is_object() || cur.is_array()
+        })
+        .cloned()
+        .collect();
+    if !containers.is_empty() && src.chance(1, 5) {
+        let q = containers[src.below(containers.len())].clone();
+        if let Some(slot) = at(v, &q) {
+            *slot = Value::Null;
+        }
+        return "json-member-null".into();
+    }
+    let (name, newv): (&str, Value) = match src.below(12) {
+        10 | 11 if same_len.is_some() => ("same-length-multibyte", same_len.unwrap()),
         0 => ("null", Value::Null),
         1 => ("empty-string", json!("")),
         2 => ("long-string", json!("X".repeat(300))),
